@@ -317,11 +317,24 @@ func verifyCase(w *gen.Writer, r *gen.Rand) {
 		} else {
 			class = "verify/exact"
 		}
-	case 6: // one ASCII byte off by one
+	case 6: // one ASCII byte off by one, or one multi-byte rune replaced by its successor code point
 		class = "verify/near-miss-other"
-		i := r.Intn(len(pat))
-		if pat[i] < 0x7f && pat[i] > 1 {
-			pat[i] += byte(1 - 2*r.Intn(2))
+		rs := []rune(string(pat))
+		var nonASCII []int
+		for i, c := range rs {
+			if c >= 0x80 && utf8.ValidRune(c+1) && utf8.RuneLen(c+1) == utf8.RuneLen(c) {
+				nonASCII = append(nonASCII, i)
+			}
+		}
+		if len(nonASCII) > 0 && r.Bool() {
+			class = "verify/near-miss-rune"
+			rs[gen.Pick(r, nonASCII)]++
+			pat = []byte(string(rs))
+		} else {
+			i := r.Intn(len(pat))
+			if pat[i] < 0x7f && pat[i] > 1 {
+				pat[i] += byte(1 - 2*r.Intn(2))
+			}
 		}
 	default: // the pattern sticks out of the content (case-insensitive only: the case-sensitive path slices)
 		class = "verify/past-end"
@@ -621,10 +634,16 @@ func main() {
 	}
 	// near-miss case-insensitive patterns (one non-letter byte replaced by its bit-0x20 counterpart), with a decoy
 	// document that lets the trigram stage propose the near-miss position
-	for i, n := 0, f.N(40, 600); i < n; i++ {
+	for i, n := 0, f.N(40, 400); i < n; i++ {
 		docs := e2lib.GenCorpus(r)
 		for k := 0; k < 3; k++ {
 			q, docs2, ok := e2lib.GenNearMiss(r, docs)
+			if k == 2 { // the multi-byte flavour
+				if q2, d2, ok2 := e2lib.GenNearMissRune(r, docs); ok2 {
+					q, docs2, ok = q2, d2, true
+					w.Count("e2e/near-miss-ci rune flavour", 1)
+				}
+			}
 			if !ok {
 				w.Count("e2e/near-miss-ci: no site", 1)
 				continue
